@@ -451,6 +451,11 @@ def shapes(tier, seed):
     for t in [('+', ('/', P, Q), ('/', R, Q)), ('-', ('/', P, Q), ('/', R, Q)), ('+', ('/', P, Q), ('/', R, S4)),
               ('*', ('/', P, Q), R), ('-', ('/', P, Q), R)]:
         S.insert(0, ExprShape('small:' + render(t), tree=t, small=True))
+    # expressions where the assembler itself rewrites the text before parsing it: the offset of `[reg - text]` is
+    # `0 - text` as a whole (left-associative: `[sp - 4 + 1]` is -3)
+    from .isa_templates import instr_shapes
+    S += [sh for sh in instr_shapes(tier, seed, ['C07'], only=('t4:0:', 't4:1:', 't4:2:', 't4:3:', 't4:4:'))
+          if not sh.params.get('context') and not sh.params.get('prelude')]
     # the verdict on a text does not depend on what was parsed before it in the same run
     for i, txt in enumerate(MALFORMED):
         S.append(MalformedShape(f'malformed-after:{i}:{txt}', text=txt, history=True))
